@@ -20,7 +20,9 @@ def find(labels, q):
     return None
 
 
-def build(ctx, shape, lkinds, dkind='f'):
+def build(ctx, shape, lkinds, dkind='f', prime=False):
+    """prime: put the axes' lazily cached state (Axis._monotonic) into its other legitimate value by
+    calling the public query is_monotonic() first - results must not depend on it"""
     dims = DIMS[:len(shape)]
     labels = [ctx.labels(k, n, 'l%s_' % d) for d, n, k in zip(dims, shape, lkinds)]
     ncell = 1
@@ -28,6 +30,9 @@ def build(ctx, shape, lkinds, dkind='f'):
         ncell *= n
     cells = ctx.cells(dkind, ncell, 'v')
     a = ctx.mk(dims, labels, cells, lkinds=lkinds, kind=dkind)
+    if prime:
+        for ax in a.axes:
+            ax.is_monotonic()
     return a, Ref(dims, labels, cells), dims, labels
 
 
@@ -63,8 +68,8 @@ def make_index(ctx, d, kind, labels, lkind, qkind=None):
     raise ValueError(kind)
 
 
-def index_nd(ctx, shape, lkinds, kinds, via='getitem', trim=False, qkind=None, dkind='f', keepdims=False):
-    a, ref, dims, labels = build(ctx, shape, lkinds, dkind)
+def index_nd(ctx, shape, lkinds, kinds, via='getitem', trim=False, qkind=None, dkind='f', keepdims=False, prime=False):
+    a, ref, dims, labels = build(ctx, shape, lkinds, dkind, prime)
     idx = []
     sel = []
     for d, kind, l, lk in zip(dims, kinds, labels, lkinds):
@@ -125,10 +130,10 @@ def index_nd(ctx, shape, lkinds, kinds, via='getitem', trim=False, qkind=None, d
     return ctx.done(same(ctx, r[1], ref.select(sel), check_kind=dkind if any(not isinstance(s, int) for s in sel) else None), ctx.observe(r[1]))
 
 
-def tol_lookup(ctx, n, lkind, qkind, form, via, m=0):
+def tol_lookup(ctx, n, lkind, qkind, form, via, m=0, prime=False):
     """nearest-neighbour lookup with a tolerance (1-D, or the first dimension of an n x m array)"""
     shape = (n,) if not m else (n, m)
-    a, ref, dims, labels = build(ctx, shape, [lkind] + (['i'] if m else []))
+    a, ref, dims, labels = build(ctx, shape, [lkind] + (['i'] if m else []), prime=prime)
     ls = labels[0]
     nq = 1 if form == 'scalar' else 2
     qs = [ctx.label(qkind, 'q%d' % j) for j in range(nq)]
@@ -263,6 +268,12 @@ def templates():
                 if kind == 'list3' and n == 3 and lk == 'i':
                     tier = 'quick'
                 add('1d-%s-n%d-%s' % (lk, n, kind), 'index_nd', tier, cost, shape=[n], lkinds=[lk], kinds=[kind])
+    # same lookups on arrays whose axes have answered is_monotonic() before (cached state must not matter)
+    for lk in 'ifU':
+        for kind in ('scalar', 'list1', 'list2', 'mask'):
+            add('1d-primed-%s-%s' % (lk, kind), 'index_nd', cost=1.5, shape=[3], lkinds=[lk], kinds=[kind], prime=True)
+    add('2d-primed', 'index_nd', cost=4, shape=[2, 3], lkinds=['U', 'i'], kinds=['scalar', 'list2'], prime=True)
+    add('tol-primed', 'tol_lookup', cost=1, n=3, lkind='f', qkind='f', form='scalar', via='take', prime=True)
     # int axis queried with reals (a[10.0] finds 10), real axis queried with ints
     for lk, qk in (('i', 'f'), ('f', 'i')):
         for kind in ('scalar', 'list2'):
